@@ -2,11 +2,16 @@
 use crate::engine::Prop;
 
 pub mod c02_c13;
+pub mod pt_props;
+pub mod ptlab;
 
 pub fn get(id: &str) -> Option<Box<dyn Prop>> {
     match id {
         "C02" => Some(Box::new(c02_c13::C02C13 { which: "C02" })),
         "C13" => Some(Box::new(c02_c13::C02C13 { which: "C13" })),
+        "C01" => Some(Box::new(pt_props::PtProp { which: "C01" })),
+        "C08" => Some(Box::new(pt_props::PtProp { which: "C08" })),
+        "C09" => Some(Box::new(pt_props::PtProp { which: "C09" })),
         _ => None,
     }
 }
